@@ -107,7 +107,7 @@ func (fr *Frame) exec(in ssa.Instruction) {
 		for _, r := range x.Results {
 			vs = append(vs, canonVal(fr.get(r)))
 		}
-		fr.rets = append(fr.rets, retEdge{cond: fr.reach, vals: vs, st: fr.st.clone(), nf: len(fr.u.facts)})
+		fr.rets = append(fr.rets, retEdge{cond: fr.reach, vals: vs, st: fr.st.clone(), nf: len(fr.u.facts), ord: fr.u.v.siteOrdinal(fr.fn, x, "ret")})
 	case *ssa.Jump:
 		fr.addEdge(fr.blk.Succs[0], fr.reach)
 	case *ssa.If:
@@ -164,7 +164,7 @@ func (fr *Frame) makeSlice(x *ssa.MakeSlice) {
 			fr.st.setRow(k, r, ConstArr(ArrS(IntS, kindSort(k)), zeroTerm(k)))
 		}
 	}
-	fr.set(x, &Val{K: VSlice, T: x.Type(), Ref: r, Off: IntLit(0), Len: ln, Cap: cp})
+	fr.set(x, &Val{K: VSlice, T: x.Type(), Ref: r, Off: IntLit(0), Len: ln, Cap: cp, Unique: true})
 }
 
 // intOf: the mathematical value of an integer-typed SSA value.
@@ -748,7 +748,11 @@ func (fr *Frame) slice(x *ssa.Slice) {
 			fr.oblig(x, "slice.bounds", And(Le(IntLit(0), lo), Le(lo, hi), Le(hi, n)), "slice bounds out of range")
 		}
 		sz := IntLit(sizeOf(ar.Elem()))
-		fr.set(x, &Val{K: VSlice, T: x.Type(), Ref: base.Ref, Off: Add(base.Off, Mul(sz, lo)), Len: Sub(hi, lo), Cap: Sub(cp, lo)})
+		uq := false
+		if a, ok := x.X.(*ssa.Alloc); ok && a.Heap && singleUse(a) {
+			uq = true // make([]T, const): nothing else can reference the array
+		}
+		fr.set(x, &Val{K: VSlice, T: x.Type(), Ref: base.Ref, Off: Add(base.Off, Mul(sz, lo)), Len: Sub(hi, lo), Cap: Sub(cp, lo), Unique: uq})
 	default:
 		unsup("Slice on %v", x.X.Type())
 	}
